@@ -56,12 +56,14 @@ def enc_varint(n):
             return bytes(out)
 
 
-def dec_varint(buf, pos):
+def dec_varint(buf, pos, end=None):
     """Return (value, newpos) or None if incomplete; raise Malformed on >4 bytes."""
     val = 0
     shift = 0
+    if end is None:
+        end = len(buf)
     for i in range(4):
-        if pos + i >= len(buf):
+        if pos + i >= end:
             return None
         b = buf[pos + i]
         val |= (b & 0x7F) << shift
@@ -144,7 +146,7 @@ class _Rd(object):
 
 # ------------------------------------------------------------------ framing
 
-def split_stream(buf, start=0):
+def split_stream(buf, start=0, end=None):
     """Split buf[start:] into whole packets.
 
     Returns (packets, newpos, error) where packets is a list of raw `bytes`
@@ -152,12 +154,12 @@ def split_stream(buf, start=0):
     consumed; error is None or a Malformed (framing cannot continue)."""
     out = []
     pos = start
-    n = len(buf)
+    n = len(buf) if end is None else end
     while pos < n:
         if n - pos < 2:
             break
         try:
-            r = dec_varint(buf, pos + 1)
+            r = dec_varint(buf, pos + 1, n)
         except Malformed as e:
             return out, pos, e
         if r is None:
